@@ -17,6 +17,8 @@ pub struct Universe {
     pub sources: Vec<String>,
     pub modules: Vec<String>,
     pub requires: BTreeMap<String, Vec<String>>,
+    /// files whose version 2 requires nothing (MC_Droppers)
+    pub droppers: Vec<String>,
 }
 
 pub fn path_of(name: &str) -> String {
@@ -64,7 +66,8 @@ pub fn content(u: &Universe, name: &str, v: i64) -> String {
         return "local function (".to_string();
     }
     let mut s = String::from("local _c = CFG\ndo end\n");
-    if let Some(reqs) = u.requires.get(name) {
+    let drops = v == 2 && u.droppers.iter().any(|d| d == name);
+    if let Some(reqs) = u.requires.get(name).filter(|_| !drops) {
         for (i, m) in reqs.iter().enumerate() {
             s.push_str(&format!("local _m{} = require('{}')\n", i, rel_require(&path_of(name), &path_of(m))));
         }
@@ -299,7 +302,8 @@ pub fn read_universe(v: &Value) -> Universe {
     for (k, val) in v["requires"].as_object().unwrap() {
         requires.insert(k.clone(), strs(val));
     }
-    Universe { sources: strs(&v["sources"]), modules: strs(&v["modules"]), requires }
+    let droppers = if v["droppers"].is_array() { strs(&v["droppers"]) } else { Vec::new() };
+    Universe { sources: strs(&v["sources"]), modules: strs(&v["modules"]), requires, droppers }
 }
 
 pub fn main(args: &[String]) -> i32 {
